@@ -270,10 +270,11 @@ class Outcome:
 
 
 class Frame:
-    def __init__(self, body, view, consts=None):
+    def __init__(self, body, view, consts=None, tparams=None):
         self.body = body
         self.view = view
         self.consts = consts or {}
+        self.tparams = tparams or {}
         self.cells = []
         self.block = 0
         self.stmt = 0
@@ -740,13 +741,13 @@ class Interp:
         return True
 
     # -- execution --------------------------------------------------------------------
-    def _call_body(self, st, body, args, depth, fork_ok=True, consts=None):
+    def _call_body(self, st, body, args, depth, fork_ok=True, consts=None, tparams=None):
         """generator of (state, kind, value)"""
         if depth > self.max_depth and depth < 90:
             yield st, "return", Top("depth")
             return
         view = M.view(self.facts, body)
-        fr = Frame(body, view, consts)
+        fr = Frame(body, view, consts, tparams if tparams is not None else getattr(self, "root_tparams", None))
         for i, l in enumerate(body["locals"]):
             fr.cells.append(st.new_cell(None))
         for i, a in enumerate(args):
@@ -985,6 +986,15 @@ class Interp:
         info = {"name": name, "tdef": tdef, "def": rdef, "gargs": c.get("gargs", []), "ln": t["ln"], "fn": fr.body["id"], "file": fr.view.file(), "term": t}
         # crate-local body?
         body = self.facts.bodies.get(rdef)
+        if body is None and "resolved" not in c and c.get("trait") and fr.tparams:
+            # static trait call on a bound type parameter: <Version as Default>::default()
+            m = re.match(r"<(\w+) as ", M.callee_name(c))
+            if m and m.group(1) in fr.tparams:
+                ty = fr.tparams[m.group(1)]
+                mname = c["def"].split("::")[-1]
+                for b in self.facts.bodies.values():
+                    if b.get("kind") == "AssocFn" and b.get("name") == mname and (b.get("impl_trait") or "").split("<")[0] == c["trait"] and b.get("impl_self") == ty:
+                        return list(self._call_body(st, b, args, depth + 1))
         if body is None and "resolved" not in c and c.get("trait") and args:
             # trait method on a type parameter of a generic body: dispatch on the run-time shape of the receiver
             dyn = self.dyn_dispatch(st, c, args[0])
@@ -1002,7 +1012,7 @@ class Interp:
                 if r is not None:
                     return r
         if body is not None and c.get("resolved_local", c.get("local")):
-            return list(self._call_body(st, body, args, depth + 1, consts=self.bind_consts(body, c, fr)))
+            return list(self._call_body(st, body, args, depth + 1, consts=self.bind_consts(body, c, fr), tparams=fr.tparams))
         st.unmodelled.append(M.short(name))
         return [(st, "return", Top("unmodelled " + M.short(tdef)))]
 
@@ -1064,6 +1074,18 @@ class Interp:
                     c = st.new_cell(env)
                     return list(self._call_body(st, body, [Ptr(c, ())] + list(args), depth + 1))
                 return list(self._call_body(st, body, list(args), depth + 1))
+        if isinstance(f, FnV) and f.kind == "fn":
+            # tuple-struct / enum-variant constructors used as functions (e.g. `.map(Some)`, `.map(Self)`)
+            d = f.defn
+            if d in self.facts.adts:
+                return [(st, "return", Struct(d, None, {str(i): a for i, a in enumerate(args)}))]
+            parent, _, vname = d.rpartition("::")
+            if parent in self.VARIANTS and vname in self.VARIANTS[parent]:
+                return [(st, "return", Struct(parent, vname, {str(i): a for i, a in enumerate(args)}))]
+            adt = self.facts.adts.get(parent)
+            if adt and any(x["name"] == vname for x in adt["variants"]):
+                var = [x for x in adt["variants"] if x["name"] == vname][0]
+                return [(st, "return", Struct(parent, vname, {fl["name"]: a for fl, a in zip(var["fields"], args)}))]
         st.unmodelled.append("indirect call of %r" % (f,))
         return [(st, "return", Top("indirect"))]
 
